@@ -250,7 +250,7 @@ func runC09(c *Ctx) {
 					// on every path: the store's block dominates all returns
 					for _, b2 := range ua.Blocks {
 						for _, in2 := range b2.Instrs {
-							if _, isRet := in2.(*ssa.Return); isRet && !b.Dominates(b2) {
+							if _, isRet := core.AsReturn(in2); isRet && !b.Dominates(b2) {
 								inLoop = true
 							}
 						}
@@ -329,12 +329,12 @@ func runC09(c *Ctx) {
 			continue
 		}
 		for _, in := range b.Instrs {
-			ret, ok := in.(*ssa.Return)
+			ret, ok := core.AsReturn(in)
 			if !ok {
 				continue
 			}
 			n++
-			os := core.Origins(core.ResolveCellLoad(core.ResolveLocalLoad(ret.Results[0])), core.ProvOpts{Prog: p})
+			os := core.Origins(core.ResolveCellLoad(core.ResolveLocalLoad(core.Res(ret, 0))), core.ProvOpts{Prog: p})
 			var bad []string
 			for _, o := range os {
 				switch {
